@@ -132,13 +132,14 @@ def _out_push(e):
 
 def arm_events(arm):
     """ordered events of one allocation arm"""
-    ev = {"fresh": [], "stores": [], "pushes": [], "release": [], "bind": [], "rebind": [], "asserts": [], "other": [], "tail": None}
+    ev = {"fresh": [], "stores": [], "pushes": [], "release": [], "bind": [], "rebind": [], "asserts": [], "other": [], "tail": None, "seq": []}
     stmts = A.inline_simple_lets(A.stmts_of(arm["body"]), pure_calls=("op",))  # `op` is the RegOp constructor passed in
     for idx, s in enumerate(stmts):
         if s.get("k") == "Let":
             n = A.binding_name(s["pat"])
             if n and _self_call(s.get("init"), "get_register"):
                 ev["fresh"].append(n)
+                ev["seq"].append(("fresh", n))
             else:
                 ev["other"].append(A.unparse(s))
             continue
@@ -150,14 +151,17 @@ def arm_events(arm):
         p = _out_push(e)
         if p is not None:
             ev["pushes"].append(p)
+            ev["seq"].append(("push", None))
         elif _self_call(e, "push_store"):
             ev["stores"].append([A.ident(A.strip(a)) for a in e["args"]])
         elif _self_call(e, "release_reg"):
             ev["release"].append([A.ident(A.strip(a)) for a in e["args"]])
+            ev["seq"].append(("release", A.ident(A.strip(e["args"][0])) if e["args"] else None))
         elif _self_call(e, "bind_register"):
             ev["bind"].append([A.ident(A.strip(a)) for a in e["args"]])
         elif _self_call(e, "rebind_register"):
             ev["rebind"].append([A.ident(A.strip(a)) for a in e["args"]])
+            ev["seq"].append(("release", A.ident(A.strip(e["args"][1])) if len(e["args"]) == 2 else None))
         elif e.get("k") == "Macro" and e["name"] in ("assert", "assert_eq", "assert_ne", "debug_assert"):
             ev["asserts"].append(A.unparse(e))
         elif idx == len(stmts) - 1 and not s.get("semi", True):
@@ -304,6 +308,13 @@ def check_protocol_match(rule, fn, m, operands, r_x, opname, fname, has_out=True
                 if rebinds:
                     probs.append("stray rebind_register%s" % rebinds)
                 if has_out:
+                    # the output register stays held until the op is on the tape and every fresh register was
+                    # taken: get_register() after the release may hand r_x itself out as the "fresh" one
+                    gave_up = [i_ for i_, (k_, a_) in enumerate(ev["seq"]) if k_ == "release" and a_ == r_x]
+                    if gave_up:
+                        late = [a_ for i_, (k_, a_) in enumerate(ev["seq"]) if i_ > gave_up[0] and k_ in ("fresh", "push")]
+                        if late:
+                            probs.append("the output register `%s` is released / rebound before %s: a register obtained after that can be `%s` itself, so an operand's register and the output coincide" % (r_x, "get_register()" if any(a_ for a_ in late) else "the op is pushed", r_x))
                     n_rel = len([r for r in ev["release"] if r == [r_x]])
                     n_reb = len([r for r in ev["rebind"] if len(r) == 2 and r[1] == r_x])
                     if len(ev["release"]) != n_rel:
